@@ -154,6 +154,80 @@ async fn run_e2e(log: &Log, seed: u64, n_rounds: u64) {
     }
 }
 
+/// (iii) thorough only: the 30 s SYNACK timeout of Client::create_proxy_stream against a scripted TLS server whose
+/// behaviour per request is encoded in the destination port: 1 never answers, 2 answers after the timeout,
+/// 3 answers ok then (duplicate) error, 4 answers error, 5 answers an unknown id only.
+async fn run_timeouts(log: &'static Log) {
+    use crate::rig::parse_frames;
+    log.reset(json!({"kind": "timeouts"}));
+    let cfg = anytls_rs::util::tls::create_server_config().unwrap();
+    let acceptor = tokio_rustls::TlsAcceptor::from(cfg);
+    let listener = tokio::net::TcpListener::bind("127.0.0.1:0").await.unwrap();
+    let addr = listener.local_addr().unwrap().to_string();
+    tokio::spawn(async move {
+        let mut conn = 0u32;
+        loop {
+            let Ok((tcp, _)) = listener.accept().await else { break };
+            let Ok(tls) = acceptor.accept(tcp).await else { continue };
+            conn += 1;
+            let base = conn * 100_000; // stream ids are per session: make them unique in the trace
+            tokio::spawn(async move {
+                let (mut rd, wr) = tokio::io::split(tls);
+                let wr = Arc::new(tokio::sync::Mutex::new(wr));
+                let mut pre = [0u8; 34];
+                if rd.read_exact(&mut pre).await.is_err() { return; }
+                let mut skip = vec![0u8; ((pre[32] as usize) << 8) | pre[33] as usize];
+                if rd.read_exact(&mut skip).await.is_err() { return; }
+                let mut buf: Vec<u8> = Vec::new(); let mut tmp = [0u8; 4096];
+                loop {
+                    let n = match rd.read(&mut tmp).await { Ok(n) if n > 0 => n, _ => break };
+                    buf.extend_from_slice(&tmp[..n]);
+                    let (frames, trail) = parse_frames(&buf);
+                    for f in &frames {
+                        if f.cmd == 4 { let _ = wr.lock().await.write_all(&frame_bytes(10, 0, b"v=2")).await; }
+                        if f.cmd == 2 && f.len == 7 {
+                            let port = ((buf[f.off + 12] as u64) << 8) | buf[f.off + 13] as u64;
+                            let sid = f.sid;
+                            ev!(log, "req", r: port, sid: base + sid, target: "scripted", via: "client");
+                            let wr = wr.clone();
+                            tokio::spawn(async move {
+                                let send = |v: &'static str, sid: u32, payload: &'static [u8]| { let wr = wr.clone(); async move { ev!(log, "answer", sid: base + sid, v: v); let _ = wr.lock().await.write_all(&frame_bytes(7, sid, payload)).await; let _ = wr.lock().await.flush().await; } };
+                                match port {
+                                    2 => { tokio::time::sleep(Duration::from_millis(31500)).await; send("ok", sid, b"").await; }
+                                    3 => { tokio::time::sleep(Duration::from_millis(800)).await; send("ok", sid, b"").await; tokio::time::sleep(Duration::from_millis(800)).await; send("err", sid, b"late duplicate").await; }
+                                    4 => { tokio::time::sleep(Duration::from_millis(800)).await; send("err", sid, b"dial failed").await; }
+                                    5 => { tokio::time::sleep(Duration::from_millis(800)).await; send("ok", sid + 1000, b"").await; }
+                                    _ => {}
+                                }
+                            });
+                        }
+                    }
+                    let keep = buf.len() - trail; buf.drain(..keep);
+                }
+            });
+        }
+    });
+    let pool = SessionPoolConfig { check_interval: Duration::from_secs(300), idle_timeout: Duration::from_secs(600), min_idle_sessions: 1 };
+    let client = net::make_client(&addr, net::PASSWORD, PaddingFactory::default(), pool);
+    let mut hs = Vec::new();
+    for port in 1..=5u64 {
+        let client = client.clone();
+        hs.push(tokio::spawn(async move {
+            let t0 = std::time::Instant::now();
+            // the harness plays the environment action "the caller's timer fires" just before the 30 s are over
+            let timer = tokio::spawn(async move { tokio::time::sleep(Duration::from_millis(29700)).await; ev!(log, "timeout", r: port); });
+            let res = client.create_proxy_stream(("127.0.0.1".to_string(), port as u16)).await;
+            let v = match &res { Ok(_) => "ok", Err(e) if e.to_string().contains("timeout") => "timeout", Err(_) => "err" };
+            if t0.elapsed() < Duration::from_millis(29000) { timer.abort(); }
+            ev!(log, "done", r: port, verdict: v, reply: "na");
+        }));
+        tokio::time::sleep(Duration::from_millis(50)).await;
+    }
+    for h in hs { let _ = h.await; }
+    tokio::time::sleep(Duration::from_millis(2500)).await; // the late answer of request 2 arrives now: it must be inert
+    ev!(log, "end", panics: 0);
+}
+
 pub fn run(args: &Args, log: &Log) -> Result<(), String> {
     let thorough = args.tier == "thorough";
     std::panic::set_hook(Box::new(|_| { PANICS.fetch_add(1, Ordering::SeqCst); }));
@@ -171,6 +245,7 @@ pub fn run(args: &Args, log: &Log) -> Result<(), String> {
     if part == "all" || part == "e2e" {
         let rt = net::rt();
         rt.block_on(run_e2e(log, args.seed, if thorough { 60 } else { 8 }));
+        if thorough { let logp: &'static Log = crate::events::log(); rt.block_on(run_timeouts(logp)); }
         rt.shutdown_timeout(Duration::from_millis(200));
     }
     let _ = std::panic::take_hook();
